@@ -405,6 +405,17 @@ func genC13(g *Gen) {
 		}
 		g.Emit("c13", nil, ops)
 	}
+	// indexes at the ends of the int range
+	if g.Mine() {
+		g.Emit("c13", nil, []string{"nth [1,2,3] 9223372036854775807", "nth [1,2,3] 9223372036854775806", "nth [1,2,3] 9223372036854775805", "nth [1,2,3] 4611686018427387904", "nth [1,2,3] 4611686018427387903", "nth [1,2,3] -9223372036854775807", "nth [1,2,3] -9223372036854775808", "nth [1,2,3] -4611686018427387904", "nth [] 9223372036854775807", "nth [] 9223372036854775806", "nth [] 9223372036854775805", "nth [] 4611686018427387904", "nth [] 4611686018427387903", "nth [] -9223372036854775807", "nth [] -9223372036854775808", "nth [] -4611686018427387904", "nth [7] 9223372036854775807", "nth [7] 9223372036854775806", "nth [7] 9223372036854775805", "nth [7] 4611686018427387904", "nth [7] 4611686018427387903", "nth [7] -9223372036854775807", "nth [7] -9223372036854775808", "nth [7] -4611686018427387904"})
+	}
+	// skewed long inputs: one value occurs 255 .. 2s+1 times (narrow counters)
+	for li, c := range skewLens(g.Thorough()) {
+		if !g.Mine() {
+			continue
+		}
+		g.Emit("c13", nil, c13SliceOps(skewSlice(c, li), []int{-5, 0, 3, 99}))
+	}
 	// long inputs (lengths incl. thresholds a change introduced into the source)
 	for li, n := range longLens(g.Thorough()) {
 		if !g.Mine() {
